@@ -539,7 +539,8 @@ static std::vector<char> assemble_eb(const vrt::J &row, int natt) {
   EncodeVarint<uint32_t>((uint32_t)nv, &b);
   EncodeVarint<uint32_t>((uint32_t)nf, &b);
   const bool seamed = natt >= 7;       // natt = 7 + k: a second attribute with its own connectivity, seam bits of pattern k (row.sm[k])
-  b.Encode((uint8_t)(seamed ? 1 : 0));
+  const bool hd = row["mode"].s == "hd";   // attribute decoder headers: nad attribute-data blocks, the row's list of decoders
+  b.Encode((uint8_t)(hd ? row["nad"].n : seamed ? 1 : 0));
   EncodeVarint<uint32_t>((uint32_t)sy.size(), &b);
   EncodeVarint<uint32_t>((uint32_t)nss, &b);
   const std::vector<vrt::J> &ev = row["ev"].a;
@@ -569,6 +570,28 @@ static std::vector<char> assemble_eb(const vrt::J &row, int natt) {
   const std::vector<int> sb = row["sb"].ints();
   for (size_t i = 0; i < sy.size() + 2; ++i) sf.EncodeBit(i < sb.size() ? sb[i] != 0 : false);     // one bit per possible active corner: never runs dry
   sf.EndEncoding(&b);
+  if (hd) {
+    for (long a = 0; a < (long)row["nad"].n; ++a) {      // every block reads its own seam bits: all clear
+      RAnsBitEncoder se;
+      se.StartEncoding();
+      for (long i = 0; i < (long)row["used"].n; ++i) se.EncodeBit(false);
+      se.EndEncoding(&b);
+    }
+    const std::vector<vrt::J> &decs = row["decs"].a;
+    b.Encode((uint8_t)decs.size());
+    for (auto &dc : decs) { b.Encode((int8_t)dc[0].n); b.Encode((uint8_t)dc[1].n); b.Encode((uint8_t)dc[2].n); }
+    for (size_t k = 0; k < decs.size(); ++k) {
+      EncodeVarint<uint32_t>(1, &b);
+      b.Encode((uint8_t)4); b.Encode((uint8_t)5); b.Encode((uint8_t)1); b.Encode((uint8_t)0); EncodeVarint<uint32_t>((uint32_t)k, &b);
+      b.Encode((uint8_t)1);
+    }
+    for (size_t k = 0; k < decs.size(); ++k) {
+      b.Encode((int8_t)-2); b.Encode((uint8_t)0); b.Encode((uint8_t)4);
+      const long cnt = k < row["cnt"].a.size() ? (long)row["cnt"][k].n : 0;
+      for (long i = 0; i < cnt; ++i) b.Encode((int32_t)(2 * (i + 1)));
+    }
+    return std::vector<char>(b.data(), b.data() + b.size());
+  }
   if (seamed) {
     const vrt::J &sm = row["sm"][natt - 7];
     RAnsBitEncoder se;
@@ -708,7 +731,8 @@ static void probe_eb(const vrt::J &row, long index, EbStats *st) {
   // every row twice: with the position attribute (natt = 1) and without any attribute decoder (natt = 0); the header-only rows and the valence
   // rows that the oracle skipped are probed once
   const int nsm = row["mode"].s.empty() ? (int)row["sm"].a.size() : 0;
-  for (int natt = 6 + nsm; natt >= 0; --natt) {
+  const bool hdrow = row["mode"].s == "hd";
+  for (int natt = hdrow ? 1 : 6 + nsm; natt >= (hdrow ? 1 : 0); --natt) {
     const bool sm = natt >= 7;
     const std::string &pred = sm ? row["sm"][natt - 7]["out"].s : pred0;
     if (natt == 6 && (!row.has("vidx2") || row["vidx2"].a.empty())) continue;   // raw values in the order of the prediction-degree traversal
